@@ -24,7 +24,7 @@ CUSTOM = {
     'C20': 'props.t_C20:setup_generate',
 }
 
-NOGEN = ['C13', 'C14', 'C16']        # hand-model only
+NOGEN = ['C04', 'C05', 'C06', 'C13', 'C14', 'C15', 'C16']        # hand-model only
 
 PROPS = sorted(set(GEN) | set(CUSTOM) | set(NOGEN))
 
